@@ -63,6 +63,9 @@ PRIORS = ("nothing", "database", "database+schema")  # what exists before the fi
 CONNECT_ARGS = tuple((d, s) for d in DATABASE_ARGS for s in SCHEMA_ARGS)  # 16
 CONFIGS = tuple((cd, cs, st, pr) for cd, cs in FLAGS for st in STORAGES for pr in PRIORS)  # 36
 DEPTH = {"quick": 2, "thorough": 3}
+# quick tier: the first connect uses the complete alphabet (576 first connects); a later connect one spelling of each
+# of the 6 distinct (database, schema) requests
+QUICK_NEXT_ARGS = ((None, None), (None, "s1"), (None, "information_schema"), ("db1", None), ("DB1", "S1"), ("Db1", "information_schema"))
 
 INFO = "INFORMATION_SCHEMA"  # exists in every database (Snowflake: every database has INFORMATION_SCHEMA)
 
@@ -70,6 +73,7 @@ INFO = "INFORMATION_SCHEMA"  # exists in every database (Snowflake: every databa
 BYSTANDER_SQL = (
     "create database other",
     "create schema other.so",
+    "create schema other.s1",  # same name as the requested schema, in another database: must not count as "exists"
     "create table other.so.keep (x int)",
     "insert into other.so.keep values (1)",
     "use schema other.so",  # s0's own context, must survive every later connect
@@ -120,6 +124,7 @@ class Model:
         self.sessions.append({"database": None, "schema": None, "has_db": False, "has_schema": False, "alive": True})
         self._attach("OTHER")
         self.cat["OTHER"]["SO"] = {"KEEP": ["(1,)"]}
+        self.cat["OTHER"]["S1"] = {}
         self.sessions[0].update(database="OTHER", schema="SO", has_db=True, has_schema=True)
         if self.storage != "previous" and prior_content(self.prior) is not None:
             self._attach("DB1")
@@ -399,6 +404,16 @@ def case_kind(a):
     return "lower" if a == a.lower() else ("upper" if a == a.upper() else "mixed")
 
 
+def check_fixture(cfg, live):
+    m = live.m
+    base = live.observe()
+    if base["cat"] != m.cat or base["files"] != tuple(sorted(f"{d}.db" for d in (m.disk or {}))):
+        raise core.HarnessError(f"C14 fixture state differs from the model in {cfg}: {base['cat']} / {base['files']} vs {m.cat} / {m.disk}")
+    if base["sessions"][0][:2] != ("OTHER", "SO"):
+        raise core.HarnessError(f"C14 fixture: first session reports {base['sessions'][0]}")
+    return base
+
+
 def run_trace(cfg, hist, parent_obs, judge_last=True):
     """Execute one history on a fresh instance. Returns dict(findings=[(clause, cls, detail)], members=[...],
     key=state key | None (diverged), obs=probe observations per session, info=...)."""
@@ -413,20 +428,17 @@ def run_trace(cfg, hist, parent_obs, judge_last=True):
         try:
             os.chdir(live.cwd)
             m = live.m
-            base = live.observe()
-            if base["cat"] != m.cat or base["files"] != tuple(sorted(f"{d}.db" for d in (m.disk or {}))):
-                raise core.HarnessError(f"C14 fixture state differs from the model in {cfg}: {base['cat']} / {base['files']} vs {m.cat} / {m.disk}")
-            if base["sessions"][0][:2] != ("OTHER", "SO"):
-                raise core.HarnessError(f"C14 fixture: first session reports {base['sessions'][0]}")
             diverged = False
-            last_sessions = base["sessions"]
+            last_sessions = None
+            if len(hist) != 1:
+                last_sessions = check_fixture(cfg, live)["sessions"]
             for step, (database, schema) in enumerate(hist):
                 last = step == len(hist) - 1
                 if not last:
                     live.connect(database, schema)
                     continue
                 pre_model = copy.deepcopy(m)
-                pre = live.observe()
+                pre = live.observe() if step else check_fixture(cfg, live)
                 if pre["cat"] != m.cat:
                     raise core.HarnessError(f"C14 replay of prefix diverged: {cfg} {hist}")
                 shp = shape(pre_model, database, schema)
@@ -609,6 +621,7 @@ def run(ctx: core.Ctx):
         "the first session's context comes from USE SCHEMA (C03's subject); a broken fixture is a harness error",
     ]
     ctx.extra["alphabet"] = {
+        "later_connects_quick": [list(a) for a in QUICK_NEXT_ARGS],
         "database": list(DATABASE_ARGS),
         "schema": list(SCHEMA_ARGS),
         "flags": [list(f) for f in FLAGS],
@@ -625,7 +638,8 @@ def run(ctx: core.Ctx):
     complete = True
     first_connects = 0
     for d in range(1, depth + 1):
-        items = [(cfg, tuple(hist) + (a,), obs) for cfg, hist, obs in frontier for a in CONNECT_ARGS]
+        alphabet = QUICK_NEXT_ARGS if (ctx.quick and d > 1) else CONNECT_ARGS
+        items = [(cfg, tuple(hist) + (a,), obs) for cfg, hist, obs in frontier for a in alphabet]
         if d == 1:
             first_connects = len(items)
         res = ctx.pmap(explore, items, recheck=(d == 1))
@@ -645,7 +659,11 @@ def run(ctx: core.Ctx):
     for s in sorted(map(repr, seen)):
         ctx.acc.add("states", s)
     ctx.extra["first_connects_complete_product"] = first_connects
-    ctx.extra["bound"] = f"histories of up to {depth} connects from each of {len(CONFIGS)} configurations, all 16 argument combinations at every step"
+    ctx.extra["bound"] = f"histories of up to {depth} connects from each of {len(CONFIGS)} configurations; " + (
+        "all 16 argument combinations for the first connect, 6 (one spelling per distinct request) for the second"
+        if ctx.quick
+        else "all 16 argument combinations at every step"
+    )
     ctx.extra["frontier_left_unexpanded"] = len(frontier)
     ctx.exhaustive = bool(complete)
 
